@@ -26,7 +26,7 @@ def main():
     tuples = sorted(set(tuples))
     ck.bounds.append('sealAsm: %d (nonce,plaintext,aad,tag) length tuples (plaintext 0..%d, aad 0..%d, nonce 1..%d, tag 12..16) x keys {standard sample key, 0^128, 1^128, %d seeded}; nonce concrete (seeded), plaintext/aad: up to 3+2 bytes symbolic (first/middle/last) and all others fixed by VERIF_SEED; solved nonces that put the initial counter within 17 blocks of 2^32' % (
         len(tuples), pls[-1], als[-1], nls[-1], len(keys) - 3))
-    ck.outside.append('all key values (keys are concrete: with a symbolic key GHASH is a product of two symbolic field elements, out of solver reach); all data bytes symbolic at once for long inputs (every byte position is covered only by the listed symbolic positions and seeds); arm64 paths; lengths above the bounds')
+    ck.outside.append('all key values (keys are concrete: with a symbolic key GHASH is a product of two symbolic field elements, out of solver reach); all data bytes symbolic at once for long inputs (every byte position is covered only by the listed symbolic positions and seeds); lengths above the bounds')
     fails = {}
     nq = 0
     t0 = time.time()
@@ -227,6 +227,18 @@ func TestVerifReplay(t *testing.T) {
         ck.record('seal_equals_sp800_38d', 'proved', '%d symbolic runs, %d solver queries: for every listed length tuple and key, ciphertext||tag stored by sealAsm equals the standard for all values of the symbolic bytes; 3 fully symbolic short messages; %d counter-wrap nonces solved and crossed; Go method plumbing checked on 4 tuples' % (ck.states, nq, len(wraps)),
                   ck.bounds[0], secs, sample=dict(nonce=13, pt=271, aad=3, tag=16, symbolic=['p_0', 'p_135', 'p_270', 'a_0', 'a_2'], claim='dst[0:pt+tag] == GCM-SM4(key, nonce, aad, pt)[:pt+tag]'))
     ck.assumptions.append('stdlib crypto/cipher generic GCM is SP 800-38D (used only as an additional replay oracle)')
+    # ------------------------------------------------------------ arm64: Go glue (go/ssa GOARCH=arm64) + NEON leaf routines (arm64 listing)
+    import arm64lib
+    a64fails = {}
+    t_a64 = time.time()
+    try:
+        a64env = arm64lib.Env('c06')
+        n_a64 = arm64lib.c06(ck, a64env, lambda k, d, w=None: a64fails.setdefault(k, []).append((d, w)), thorough, keys)
+    except (asmsym.AsmUnsupported, Unsupported, RuntimeError) as ex:
+        n_a64 = 0
+        a64fails.setdefault('a64:unsupported', []).append(('arm64 part not completed: %s' % ex, None))
+    if not arm64lib.report(ck, a64fails):
+        ck.record('arm64', 'proved', 'arm64 Seal (Go glue + NEON leaf routines) equals the SP 800-38D specification on every length tuple of the arm64 bound (%d cases)' % n_a64, secs=time.time() - t_a64)
     ck.finish()
 
 
